@@ -242,7 +242,15 @@ def execute(sc):
                             if isinstance(p_[key], list) else float(p_[key]) * sweep
         pre['knobs'].pop('noise_sweep_before', None)
         FW.run_filter(pre, FW.materialise(pre))
-    out = FW.run_filter(sc, m)
+    if sc['knobs'].get('feedback_run_before'):
+        # not judged: the feedback filter on the same data with the SAME sensor-model and
+        # measurement objects; it leaves estimates in the models, which each run resets
+        kw0 = FW.filter_kwargs(sc, m)
+        FW.run_feedback_first(sc, m, kw0)
+        FW.reset_spies(m)
+        out = FW.run_filter(sc, m, reuse=kw0)
+    else:
+        out = FW.run_filter(sc, m)
     met = {}
     if out.error_class is not None:
         viol = [V('no-result', f"feedforward filter did not return: {out.error}",
@@ -288,6 +296,10 @@ def execute(sc):
         probes['earlier_call_with_other_noise_densities'] = 1
     if kn.get('same_model_object'):
         probes['one_model_object_for_gyro_and_accel'] = 1
+    if kn.get('feedback_run_before'):
+        probes['feedback_run_before_with_same_objects'] = 1
+    if any(s_.get('outlier') for s_ in sc['sensors']):
+        probes['one_sample_grossly_wrong'] = 1
     if any(s['lever'] is not None for s in sc['sensors']):
         probes['lever_arm'] = 1
     probes.update({k: v for k, v in FW.probes(sc, m, out).items()
